@@ -258,5 +258,59 @@ pub fn run(tier: Tier) -> i32 {
         ctx.sample(json!({"object": label, "alphabet": al.iter().map(|a| a.0.clone()).collect::<Vec<_>>(), "depth": d, "states": g.states, "edges": g.edges, "reset_then_decompress_checks": g.reset_checks, "post_reset_states": g.post_reset_states}));
     });
     ctx.scope_done("history-graphs", jobs.len() as u64, t0, "3 LZMA parameter sets + LZMA2");
+    // ---------------------------------------------------------------- long reuse: counters that wrap (8 / 16 bit) between two uses
+    // history: decompress(A), then c-1 times [reset, decompress(B)], then reset, decompress(A'): the last call must behave
+    // like a new decoder, for c around 2^8, 2*2^8 and 2^16 (B never touches the literal contexts A and A' use)
+    {
+        let t1 = Instant::now();
+        let hi: Vec<Sym> = (0..40u32).map(|i| Sym::L(0xE0 + ((i * 7) % 32) as u8)).chain([Sym::M(3, 5), Sym::L(0xFF)]).collect();
+        let hi2: Vec<Sym> = (0..30u32).map(|i| Sym::L(0xE1 + ((i * 11) % 30) as u8)).chain([Sym::M(7, 9), Sym::L(0xF0), Sym::S]).collect();
+        let lo: Vec<Sym> = (0..12u32).map(|i| Sym::L(((i * 5) % 32) as u8)).collect();
+        let counts: Vec<usize> = tier.pick(vec![255, 256, 257, 512, 65536], vec![2, 3, 127, 128, 255, 256, 257, 511, 512, 513, 1024, 65535, 65536, 65537]);
+        let mut items: Vec<(bool, usize)> = Vec::new();
+        for &c in &counts {
+            items.push((false, c));
+            if c <= 1024 {
+                items.push((true, c));
+            }
+        }
+        par_for(items.len() as u64, |i| {
+            let (lzma2, c) = items[i as usize];
+            let (a, b, a2, p) = if lzma2 {
+                let mk = |prog: &Vec<Sym>| lzma2::write(&[Chunk::C { class: 3, props: (3, 0, 2), prog: prog.clone() }]).bytes;
+                (mk(&hi), mk(&lo), mk(&hi2), Params { lzma2: true, lc: 0, lp: 0, pb: 0, dict: 0, size: None })
+            } else {
+                let mk = |prog: &Vec<Sym>| {
+                    let mut q = prog.clone();
+                    q.push(Sym::E);
+                    enc::encode(3, 0, 2, 4096, &q).payload
+                };
+                (mk(&hi), mk(&lo), mk(&hi2), Params { lzma2: false, lc: 3, lp: 0, pb: 2, dict: 4096, size: None })
+            };
+            let mut ops = vec![RawOp::Dec(Hex(a))];
+            for _ in 1..c {
+                ops.push(RawOp::Reset);
+                ops.push(RawOp::Dec(Hex(b.clone())));
+            }
+            ops.push(RawOp::Reset);
+            ops.push(RawOp::Dec(Hex(a2.clone())));
+            let case = case_of(&p, &ops);
+            let o = crate::cases::run_case(&case);
+            let fresh_case = case_of(&p, &[RawOp::Dec(Hex(a2))]);
+            let f = crate::cases::run_case(&fresh_case);
+            ctx.eval(ops.len() as u64);
+            ctx.nontriv(1);
+            ctx.traces.fetch_add(1, Ordering::Relaxed);
+            let (lo_, lf) = (o.ops.last(), f.ops.last());
+            let same = match (lo_, lf) {
+                (Some(x), Some(y)) => x.v.class() == y.v.class() && x.n == y.n && x.sink_len == y.sink_len && o.out == f.out && o.ops.iter().all(|r| !r.v.is_panic()),
+                _ => false,
+            };
+            if !same || !lf.map_or(false, |y| y.v.is_ok()) {
+                ctx.violation(&case, &format!("{}: decompress(A), then {} x [reset, decompress(B)], reset, decompress(A'): the last call behaves like a new decoder ({:?})", if lzma2 { "raw::Lzma2Decoder" } else { "raw::LzmaDecoder" }, c - 1, lf.map(|y| (y.v.class(), y.n, y.sink_len))), &o, None);
+            }
+        });
+        ctx.scope_done("long-reuse-cycles", items.len() as u64, t1, "reset counts around 2^8, 2^9 and 2^16");
+    }
     ctx.finish()
 }
